@@ -589,6 +589,11 @@ def minimize_lbfgsb(
             else:
                 f0, f0_old, grad, G = update_fun_def(x, f0, f0_old, grad, X, G)
 
+                # We must check if the updated G satisfy the strong wolfe condition
+                # (before the stop tests, so that a result returned from them never
+                # carries rewritten pairs that were not filtered)
+                X, G = make_X_and_G_respect_strong_wolfe(X, G, eps_SY, logger=logger)
+
                 # Check stop criterion: minimum relative change in the
                 # objective function
                 if is_f0_min_change_reached(f0, f0_old, ftol, istate):
@@ -597,9 +602,6 @@ def minimize_lbfgsb(
                 # Check stop criterion: minimum objective function value
                 elif is_f0_target_reached(f0 / sf.scaling_factor, _ftarget, istate):
                     break  # the while loop
-
-                # We must check if the updated G satisfy the strong wolfe condition
-                X, G = make_X_and_G_respect_strong_wolfe(X, G, eps_SY, logger=logger)
 
             mats = update_lbfgs_matrices(
                 x.copy(),  # copy otherwise x might be changed in X when updated
